@@ -102,6 +102,7 @@ class Path(object):
         self.realised = 0
         self.labels_reached = set()
         self.soft = []           # deviations recorded without ending the path
+        self.dump = None         # (directory, remaining) for second-opinion SMT-LIB2 dumps
 
     # -- solver plumbing ------------------------------------------------------
     def _check(self, *extra):
@@ -183,6 +184,8 @@ class Path(object):
         self.solver.push()
         self.solver.add(other)
         r = self._check()
+        if self.dump is not None and self.dump[1] > 0 and r != z3.unknown:
+            self._dump_query(str(r))
         self.solver.pop()
         if r == z3.unsat:
             self.stats.implied += 1
@@ -294,6 +297,16 @@ class Path(object):
         self.trace.append(("r", v))
         self._add(expr == v)
         return v
+
+    def _dump_query(self, answer):
+        """write the query just decided as SMT-LIB2 (for /usr/bin/z3 and cvc5 as second opinions)"""
+        import os
+        d, left = self.dump
+        self.dump = (d, left - 1)
+        name = os.path.join(d, "q-%d-%d-%s.smt2" % (os.getpid(), self.stats.queries, answer))
+        with open(name, "w") as f:
+            f.write("; expected: %s\n(set-logic ALL)\n" % answer)
+            f.write(self.solver.to_smt2())
 
     # -- harness-facing helpers ------------------------------------------------
     def fresh_byte(self, name, exclude=(), domain=None):
@@ -1055,10 +1068,11 @@ def concretise(value, model):
     return value
 
 
-def run_path(fn, prefix, stats, want_model=False, seed=0, timeout_ms=20000):
+def run_path(fn, prefix, stats, want_model=False, seed=0, timeout_ms=20000, dump=None):
     """Execute harness `fn(path)` once under `prefix`."""
     global CUR
     p = Path(prefix, stats, seed=seed, timeout_ms=timeout_ms)
+    p.dump = dump
     res = PathResult()
     res.label = None
     res.detail = None
